@@ -47,10 +47,14 @@ var pathRelTable = map[string][]pathRel{
 	"DynamicSednetGully": {
 		{alts: []string{"fineLoad = 0.01*generatedFine*sdrFine"}, note: "delivered fine load = generated × delivery ratio"},
 		{alts: []string{"coarseLoad = 0.01*generatedCoarse*sdrCoarse"}, note: "delivered coarse load = generated × delivery ratio"},
+		{alts: []string{"generatedCoarse*GullyPercentFine + generatedFine*GullyPercentFine = 100*generatedFine", "generatedCoarse*GullyPercentFine*averageGullyActivityFactor + generatedFine*GullyPercentFine = 100*generatedFine"},
+			note: "fine : coarse is the gully material's fine percentage : the rest, the fine side scaled by the gully activity factor in force (1 up to GullyEndYear, the average factor after)"},
 	},
 	"DynamicSednetGullyAlt": {
 		{alts: []string{"fineLoad = 0.01*generatedFine*sdrFine"}, note: "delivered fine load = generated × delivery ratio"},
 		{alts: []string{"coarseLoad = 0.01*generatedCoarse*sdrCoarse"}, note: "delivered coarse load = generated × delivery ratio"},
+		{alts: []string{"generatedCoarse*GullyPercentFine + generatedFine*GullyPercentFine = 100*generatedFine", "generatedCoarse*GullyPercentFine*averageGullyActivityFactor + generatedFine*GullyPercentFine = 100*generatedFine"},
+			note: "fine : coarse is the gully material's fine percentage : the rest, the fine side scaled by the gully activity factor in force (1 up to GullyEndYear, the average factor after)"},
 	},
 	"PartitionDemand": {
 		{alts: []string{"outflow + extraction = input"}, note: "extraction and outflow sum to the input (decided for the case in which the clamp at zero does not bind)"},
@@ -264,6 +268,7 @@ func checkPathIdentities(p *Program, r *Report) {
 		}
 		evaluate := func(path []*ssa.BasicBlock, frames map[*ssa.Call]*frame) outcome {
 			pc := &pathCtx{pos: map[*ssa.BasicBlock]int{}, path: path, stateOf: map[*ssa.Phi]int{}, kernel: k, frames: frames}
+			pc.inSeries, pc.atIdxArg = inIdx, atIdxVal
 			pc.names = map[ssa.Value]string{}
 			for i, b := range path {
 				pc.pos[b] = i
@@ -504,6 +509,7 @@ func checkPathIdentities(p *Program, r *Report) {
 			return oc
 		}
 		relBad := map[int]string{}
+		relSkip := map[int]string{}
 		zeroMsg := map[string]string{}
 		for _, path := range paths {
 			oc := evaluate(path, nil)
@@ -600,6 +606,12 @@ func checkPathIdentities(p *Program, r *Report) {
 				}
 			}
 			for _, ri := range oc.failed {
+				// a residual that contains the result of a module helper the engine could not open (it takes a record of
+				// its factors, an array, …) says nothing about the relation: counted as not analysed, not as a failure
+				if h := unopenedHelperIn(oc.pc, oc.resid[ri]); h != "" {
+					relSkip[ri] = h
+					continue
+				}
 				if _, seen := relBad[ri]; !seen {
 					relBad[ri] = fmt.Sprintf("on the path through one timestep with branches [%s]: left − right, cleared of denominators, is %s", describePath(p, path), oc.pc.show(p, m, oc.resid[ri]))
 				}
@@ -608,6 +620,10 @@ func checkPathIdentities(p *Program, r *Report) {
 		for ri, rp := range rels {
 			nRel++
 			rkey := fmt.Sprintf("%s:%s", key, strings.ReplaceAll(strings.TrimSpace(rp.src.alts[0]), " ", ""))
+			if h, skip := relSkip[ri]; skip && relBad[ri] == "" {
+				r.Unsupported("R16.4", fmt.Sprintf("%s: `%s` runs through the results of %s, which takes more than scalars and is not opened by the path engine", key, rp.src.alts[0], h))
+				continue
+			}
 			if msg, bad := relBad[ri]; bad {
 				r.Fail("R16.4", rkey, p.Pos(k.Pos()), fmt.Sprintf("%s (%s): `%s` does not hold %s", m.Name, rp.src.note, strings.Join(rp.src.alts, "  or  "), msg))
 			} else {
@@ -645,4 +661,38 @@ func handsTimestepToVisitor(p *Program, k *ssa.Function) bool {
 		}
 	}
 	return false
+}
+
+// unopenedHelperIn: the name of a module function whose result appears as an opaque symbol in d although it is
+// not a scalar helper the engine can inline ("" if none).
+func unopenedHelperIn(pc *pathCtx, d poly) string {
+	if pc == nil {
+		return ""
+	}
+	for mono, c := range d {
+		if c == 0 {
+			continue
+		}
+		for _, sy := range strings.Split(mono, "*") {
+			sy = strings.TrimPrefix(sy, "/")
+			var id int
+			if n, err := fmt.Sscanf(sy, "s%d", &id); n != 1 || err != nil || id >= len(pc.syms) || fmt.Sprintf("s%03d", id) != sy {
+				continue
+			}
+			var call *ssa.Call
+			switch v := pc.syms[id].v.(type) {
+			case *ssa.Extract:
+				call, _ = v.Tuple.(*ssa.Call)
+			case *ssa.Call:
+				call = v
+			}
+			if call == nil {
+				continue
+			}
+			if f := calleeOf(call); f != nil && f.Blocks != nil && InModule(f) && scalarHelperPaths(call) == nil {
+				return f.Name()
+			}
+		}
+	}
+	return ""
 }
